@@ -12,6 +12,7 @@
 # See the License for the specific language governing permissions and
 # limitations under the License.
 
+import calendar
 from copy import deepcopy, copy
 from datetime import date, datetime, timedelta, timezone
 import logging
@@ -562,10 +563,7 @@ class DateTime(Column):
                 value = datetime(value.year, value.month, value.day)
             else:
                 raise ValidationError("{0} '{1}' is not a datetime object".format(self.column_name, value))
-        epoch = datetime(1970, 1, 1, tzinfo=value.tzinfo)
-        offset = get_total_seconds(epoch.tzinfo.utcoffset(epoch)) if epoch.tzinfo else 0
-
-        return int((get_total_seconds(value - epoch) - offset) * 1000)
+        return int(calendar.timegm(value.utctimetuple()) * 1e3 + value.microsecond / 1e3)
 
 
 class Date(Column):
